@@ -44,7 +44,7 @@ def _digest_comp_ok(c):
 
 
 # ---------------------------------------------------------------------------------------------
-def check_data(eng, name, meta_in, content, signer_kind, signer):
+def check_data(eng, name, meta_in, content, signer_kind, signer, form='list'):
     """encode, check the wire with the reference reader, decode, compare. meta_in = None | dict"""
     enc = _lib()
     if meta_in is None:
@@ -53,7 +53,7 @@ def check_data(eng, name, meta_in, content, signer_kind, signer):
         meta = enc.MetaInfo(content_type=meta_in['ct'], freshness_period=meta_in['fp'],
                             final_block_id=meta_in['fbi'])
     try:
-        wire = enc.make_data(name, meta, content, signer)
+        wire = enc.make_data(env.name_in_form(name, form), meta, content, signer)
     except Exception as e:
         eng.fail('data-encode-raises', exc_sig(e), repr(e)[:200])
         return None
@@ -148,7 +148,8 @@ def h_data_names(eng, case):
     content = eng.bytes('content', 1)
     kind = case['signer']
     signer = env.make_signer(eng, kind, rmin=case.get('rmin', 0))
-    check_data(eng, name, {'ct': None, 'fp': eng.int('fp', 0, 2 ** 64 - 1), 'fbi': None}, content, kind, signer)
+    check_data(eng, name, {'ct': None, 'fp': eng.int('fp', 0, 2 ** 64 - 1), 'fbi': None}, content, kind, signer,
+               form=case.get('form', 'list'))
     eng.reach('end')
 
 
@@ -164,17 +165,19 @@ def h_data_payload(eng, case):
 
 
 # ---------------------------------------------------------------------------------------------
-def check_interest(eng, name, digest_pos, P, app_param, signer_kind, signer):
+def check_interest(eng, name, digest_pos, P, app_param, signer_kind, signer, form='list'):
     """P: dict(cbp, mbf, nonce, lifetime, hop, hints)"""
     enc = _lib()
     param = enc.InterestParam(can_be_prefix=P['cbp'], must_be_fresh=P['mbf'], nonce=P['nonce'],
-                              lifetime=P['lifetime'], hop_limit=P['hop'], forwarding_hint=list(P['hints']))
+                              lifetime=P['lifetime'], hop_limit=P['hop'],
+                              forwarding_hint=[env.name_in_form(h, form) for h in P['hints']])
     need_digest = app_param is not None or signer is not None
     in_name = list(name)
     if digest_pos is not None:
         in_name.insert(digest_pos, env.concrete_component(2, bytes(32)))
     try:
-        wire, final_name = enc.make_interest(in_name, param, app_param, signer, need_final_name=True)
+        wire, final_name = enc.make_interest(env.name_in_form(in_name, form), param, app_param, signer,
+                                             need_final_name=True)
     except Exception as e:
         eng.fail('int-encode-raises', exc_sig(e), repr(e)[:200])
         return None
@@ -312,8 +315,8 @@ def h_interest_names(eng, case):
         sel = eng.choice(len(shape) + 2, 'digest_pos')
         digest_pos = None if sel == len(shape) + 1 else sel
     P = {'cbp': False, 'mbf': eng.bool('mbf'), 'nonce': eng.int('nonce', 0, 2 ** 32 - 1), 'lifetime': None,
-         'hop': None, 'hints': []}
-    check_interest(eng, name, digest_pos, P, app, kind, signer)
+         'hop': None, 'hints': [env.name_from_shape(eng, [(1, 1)], 'h')] if case.get('hint') else []}
+    check_interest(eng, name, digest_pos, P, app, kind, signer, form=case.get('form', 'list'))
     eng.reach('end')
 
 
@@ -359,6 +362,13 @@ def cases(tier, seed):
     for sh in shapes:
         for sk in ('none', 'ecdsa'):
             cs.append(('data_names', {'shape': sh, 'signer': sk, 'rmin': 69}))
+    # every accepted representation of a name (NonStrictName): tuple, one-shot iterator, generator, encoded, memoryview
+    for form in env.NAME_FORMS[1:]:
+        for sh in ([], [[1, 1]], [[1, 2], [3, 1]]):
+            cs.append(('data_names', {'shape': sh, 'signer': 'none', 'form': form}))
+            cs.append(('interest_names', {'shape': sh, 'signer': 'none', 'app': False, 'form': form, 'hint': True}))
+        cs.append(('data_names', {'shape': [[1, 1]], 'signer': 'ecdsa', 'rmin': 70, 'form': form}))
+        cs.append(('interest_names', {'shape': [[1, 1]], 'signer': 'digest', 'app': True, 'form': form, 'rmin': 70}))
     # long names: the Name element itself (and a component) with a 3-byte length, alone and next to symbolic components
     for sh in ([['L', 260]], [[1, 1], ['L', 248]], [['L', 251], [1, 1]], [[1, 2], ['L', 300], [3, 1]]):
         for sk in ('none', 'ecdsa'):
